@@ -54,7 +54,7 @@ func (p prog) String() string {
 	if p.UDP {
 		t = "udp"
 	}
-	return fmt.Sprintf("%s %s open-payload=%d writes=%v le-mode=%d mask=%08x rot=%d le-pad=%d pad1=%d pad2=%d carry-nonce=%v seed=%d", t, role, p.OpenPay, p.Writes, p.Mode, p.Mask, p.Rot, p.LEPad, p.Pad1, p.Pad2, p.Carry, p.Seed) + fmt.Sprintf(" carry8=%v long-credential=%v", p.Carry8, p.LongCred)
+	return fmt.Sprintf("%s %s open-payload(ref-client: on the request; ref-server: on the response)=%d writes=%v le-mode=%d mask=%08x rot=%d le-pad=%d pad1=%d pad2=%d carry-nonce=%v seed=%d", t, role, p.OpenPay, p.Writes, p.Mode, p.Mask, p.Rot, p.LEPad, p.Pad1, p.Pad2, p.Carry, p.Seed) + fmt.Sprintf(" carry8=%v long-credential=%v", p.Carry8, p.LongCred)
 }
 
 var cred = refwire.Cred{User: "alice", Password: "pw1"}
@@ -339,6 +339,7 @@ func peerExec(p prog, ctl *explore.Ctl) explore.Result {
 		serve := func(recvSeg func() (*refwire.Seg, error), send func(s *refwire.Seg, i int)) {
 			// expect the open request carrying the socks5 request
 			var req []byte
+			piggy := 0
 			for len(req) < 10 {
 				s, err := recvSeg()
 				if err != nil {
@@ -350,8 +351,16 @@ func peerExec(p prog, ctl *explore.Ctl) explore.Result {
 					req = append(req, s.Payload...)
 				}
 				if s.Proto == refwire.OpenSessionRequest {
-					// answer at once: a client that cannot piggy-back (low entropy) waits for this
-					send(&refwire.Seg{Proto: refwire.OpenSessionResponse, SessionID: sid, Seq: 0}, 0)
+					// answer at once: a client that cannot piggy-back (low entropy) waits for this. The
+					// response itself may carry the first bytes of the stream (docs/protocol.md: any session
+					// segment carries up to 1024 payload bytes), which mieru's own server never does
+					if p.Mode == 0 {
+						piggy = p.OpenPay
+						if piggy > len(stream) {
+							piggy = len(stream)
+						}
+					}
+					send(&refwire.Seg{Proto: refwire.OpenSessionResponse, SessionID: sid, Seq: 0, Payload: stream[:piggy]}, 0)
 				}
 			}
 			if !bytes.Equal(req[:10], socksReq) {
@@ -359,7 +368,7 @@ func peerExec(p prog, ctl *explore.Ctl) explore.Result {
 				return
 			}
 			seq := uint32(1)
-			rest := stream
+			rest := stream[piggy:]
 			maxFrag := 32768
 			if p.Mode == 1 {
 				maxFrag = 32764
